@@ -224,7 +224,7 @@ func genNoHidden(g *G) (*netSpec, string) {
 	return sp, fam
 }
 
-func genDepthNet(g *G) (*netSpec, string) {
+func genDepthNet0(g *G) (*netSpec, string) {
 	for {
 		switch g.intn(10) {
 		case 0, 1:
@@ -394,4 +394,20 @@ func opNodeDepth(g *G) (interface{}, []uint64, int, interface{}) {
 	d, err := all[i].Depth(d0, cp)
 	out := &nodeDepthOut{Depth: d, Err: depthErrClass(err), Marks: marksOf(net)}
 	return in, nil, 0, out
+}
+
+// genDepthNet: the shapes of genDepthNet0, some links additionally carrying the IsRecurrent FLAG (an acyclic network may
+// carry flagged links: a gene created as recurrent whose cycle-closing genes were disabled later); the depth is defined by
+// the links, not by the flags
+func genDepthNet(g *G) (*netSpec, string) {
+	sp, cls := genDepthNet0(g)
+	if sp != nil && g.chance(0.3) {
+		for i := range sp.links {
+			if g.chance(0.25) {
+				sp.links[i].rec = true
+			}
+		}
+		cls += ":recFlags"
+	}
+	return sp, cls
 }
